@@ -2,16 +2,211 @@
 and the module-global shims installed inside the yardl modules only."""
 import builtins, struct as _struct, sys, z3
 from . import core
-from .core import SymInt, SymBool, W, bv, tb, ctx, Unsupported, Abort
+from .core import SymInt, SymBool, W, bv, tb, ctx, Unsupported, Abort, cdiff, iadd, isub
 
 B8 = z3.BitVecSort(8)
-IDX = z3.BitVecSort(W)
-_fresh = [0]
+ZERO8 = z3.BitVecVal(0, 8)
+
+# --- fast term constructors (z3py's If/==/BitVecVal spend ~100us each in coercion checks; the raw
+#     C API calls below are ~20x cheaper, which matters because cell arrays are built from ITE chains)
+_CTX = z3.main_ctx()
+_CR = _CTX.ref()
+_K80, _K8 = {}, {}
 
 
-def fresh_array(tag="junk"):
-    _fresh[0] += 1
-    return z3.Array("%s!%d" % (tag, _fresh[0]), IDX, B8)
+def k80(v):
+    t = _K80.get(v)
+    if t is None:
+        t = _K80[v] = z3.BitVecVal(v, W)
+    return t
+
+
+def k8(v):
+    t = _K8.get(v)
+    if t is None:
+        t = _K8[v] = z3.BitVecVal(v, 8)
+    return t
+
+
+def f_ite8(c, a, b):
+    return z3.BitVecRef(z3.Z3_mk_ite(_CR, c.ast, a.ast, b.ast), _CTX)
+
+
+def f_eq(a, b):
+    return z3.BoolRef(z3.Z3_mk_eq(_CR, a.ast, b.ast), _CTX)
+
+
+def f_and(a, b):
+    return z3.BoolRef(z3.Z3_mk_and(_CR, 2, (z3.Ast * 2)(a.ast, b.ast)), _CTX)
+
+
+def f_add(a, b):
+    return z3.BitVecRef(z3.Z3_mk_bvadd(_CR, a.ast, b.ast), _CTX)
+
+
+def f_slt(a, b):
+    return z3.BoolRef(z3.Z3_mk_bvslt(_CR, a.ast, b.ast), _CTX)
+
+
+def _ct(t):
+    """concrete value of a z3 term / python int, else None"""
+    if isinstance(t, int):
+        return t
+    if z3.is_bv_value(t):
+        return t.as_signed_long()
+    return None
+
+
+def pos(v):
+    """normalise a position: python int when concrete, else SymInt (carrying its linear form)"""
+    if isinstance(v, int):
+        return int(v)
+    if isinstance(v, SymInt):
+        return v.lin[0] if not v.lin[1] else v
+    if isinstance(v, SymBool):
+        return SymInt(bv(v))
+    if z3.is_expr(v):
+        return v.as_signed_long() if z3.is_bv_value(v) else SymInt(v)
+    return int(v)
+
+
+def in_range_known(rel, n):
+    """(0 <= rel, rel < n) each True/False/None, from linear forms and declared input ranges"""
+    lo = (rel >= 0) if isinstance(rel, int) else core.cmp_known(rel, 0, "ge")
+    up = (rel < n) if isinstance(rel, int) and isinstance(n, int) else core.cmp_known(rel, n, "lt")
+    return lo, up
+
+
+class Arr:
+    """Immutable byte array of concrete capacity as a list of BV8 terms; a symbolic index becomes an
+    if-then-else chain over the cells (pure QF_BV; z3's array theory was 10-50x slower here)."""
+    __slots__ = ("c", "uniform")
+
+    def __init__(self, cells):
+        self.c = cells
+        self.uniform = len(cells) > 0 and all(x is cells[0] for x in cells)
+
+    @staticmethod
+    def zeros(n):
+        return Arr([ZERO8] * n)
+
+    def select(self, i):
+        if isinstance(i, int):
+            return self.c[i] if 0 <= i < len(self.c) else ZERO8
+        if self.uniform:
+            return self.c[0]
+        t = i.t
+        r = ZERO8
+        c = self.c
+        for j in range(len(c) - 1, -1, -1):
+            r = f_ite8(f_eq(t, k80(j)), c[j], r)
+        return r
+
+
+class Mem:
+    """Persistent byte memory = base cells + write log (newest last).  Records:
+         ('b', idx, val)                 one byte stored at idx
+         ('c', lo, ln, fn)               bytes [lo, lo+ln) are fn(rel) for 0 <= rel < ln  (lazy copy)
+       Positions are python ints or SymInts carrying base+offset; select(idx) walks the log
+       newest-first; whenever idx - lo is a known constant the record is a definite hit or miss,
+       otherwise it contributes one if-then-else."""
+    __slots__ = ("base", "log")
+
+    def __init__(self, base, log=()):
+        self.base, self.log = base, log
+
+    def store(self, idx, val):
+        return Mem(self.base, self.log + (("b", pos(idx), val),))
+
+    def copy_in(self, lo, ln, fn):
+        ln = pos(ln)
+        if isinstance(ln, int) and ln <= 0:
+            return self
+        return Mem(self.base, self.log + (("c", pos(lo), ln, fn),))
+
+    def select(self, idx):
+        idx = pos(idx)
+        alts = []
+        hit = None
+        for rec in reversed(self.log):
+            if rec[0] == "b":
+                e = (idx == rec[1]) if isinstance(idx, int) and isinstance(rec[1], int) else core.cmp_known(idx, rec[1], "eq")
+                if e is None:
+                    alts.append((f_eq(bv(idx), bv(rec[1])), rec[2]))
+                elif e:
+                    hit = rec[2]
+                    break
+                continue
+            _, lo, ln, fn = rec
+            rel = isub(idx, lo)
+            lo_ok, up_ok = in_range_known(rel, ln)
+            if lo_ok is False or up_ok is False:
+                continue
+            if lo_ok and up_ok:
+                hit = fn(rel)
+                break
+            conds = []
+            if lo_ok is None:
+                conds.append(rel.t >= k80(0))
+            if up_ok is None:
+                conds.append(bv(rel) < bv(ln))
+            alts.append((z3.And(*conds) if len(conds) > 1 else conds[0], fn(rel)))
+        r = hit if hit is not None else self.base.select(idx)
+        for cond, val in reversed(alts):
+            r = f_ite8(cond, val, r)
+        return r
+
+
+class Segs:
+    """Concatenation of byte segments with symbolic lengths: what the underlying stream sees (sink
+    contents, source data).  Each segment is lazy (fn(rel) -> BV8); a position is resolved by walking
+    the segments, using known constant differences for definite hits/misses."""
+
+    def __init__(self):
+        self.segs = []      # (fn, start, n)
+        self.length = 0     # SymInt | int
+        self.cap = 0        # concrete upper bound of length
+
+    def append(self, fn, n, cap):
+        n = pos(n)
+        if isinstance(n, int):
+            cap = n
+        if cap <= 0:
+            return
+        self.segs.append((fn, self.length, n))
+        self.length = iadd(self.length, n)
+        self.cap += cap
+
+    def append_cells(self, cells, n):
+        n = pos(n)
+        if isinstance(n, int):
+            cells = cells[:n]
+        self.append(Arr(list(cells)).select, n, len(cells))
+
+    def term_at(self, i):
+        i = pos(i)
+        alts = []
+        hit = None
+        for fn, start, n in self.segs:
+            rel = isub(i, start)
+            lo_ok, up_ok = in_range_known(rel, n)
+            if lo_ok is False:
+                break   # starts are non-decreasing: later segments start even further right
+            if up_ok is False:
+                continue
+            if lo_ok and up_ok:
+                hit = fn(rel)
+                break
+            conds = []
+            if lo_ok is None:
+                conds.append(rel.t >= k80(0))
+            if up_ok is None:
+                conds.append(bv(rel) < bv(n))
+            alts.append((z3.And(*conds) if len(conds) > 1 else conds[0], fn(rel)))
+        r = hit if hit is not None else ZERO8
+        for cond, val in reversed(alts):
+            r = f_ite8(cond, val, r)
+        return r
 
 
 def zx(b):  # BV8 -> BV80
@@ -23,14 +218,16 @@ def lo8(t):  # BV80 -> BV8
 
 
 def _c(v):
-    """concrete python int if v is concrete, else None"""
+    """concrete python int if v is (syntactically) concrete, else None"""
     if isinstance(v, bool):
         return int(v)
     if isinstance(v, int):
         return v
-    if isinstance(v, (SymInt, SymBool)):
-        t = z3.simplify(bv(v))
-        return t.as_signed_long() if z3.is_bv_value(t) else None
+    if isinstance(v, SymInt):
+        return v.lin[0] if not v.lin[1] else None
+    if isinstance(v, SymBool):
+        t = v.t
+        return 1 if z3.is_true(t) else 0 if z3.is_false(t) else None
     if hasattr(v, "__index__"):
         return int(v)
     return None
@@ -56,35 +253,40 @@ def zmax(a, b):
 
 
 def clamp_slice(sl, n):
-    """Python slice semantics (step 1) on a sequence of concrete-or-symbolic length n -> (lo, ln)."""
+    """Python slice semantics (step 1) on a sequence of length n (int|SymInt) -> (lo, ln)."""
     if sl.step not in (None, 1):
         raise Unsupported("slice step")
 
     def idx(v, default):
         if v is None:
             return default
-        c = _c(v)
-        cn = _c(n)
+        c, cn = _c(v), _c(n)
         if c is not None and cn is not None:
             if c < 0:
                 c = max(c + cn, 0)
             return min(c, cn)
+        v = pos(v) if not isinstance(v, int) else v
         t, tn = bv(v), bv(n)
-        z = z3.BitVecVal(0, W)
+        z = k80(0)
+        # the common case 0 <= v <= n is decided by the solver (a fork only if clamping is feasible),
+        # so that the position keeps its base+offset form
+        if ctx().decide(z3.And(t >= z, t <= tn)):
+            return v
         neg = z3.If(t + tn < z, z, t + tn)
         return SymInt(z3.If(t < z, neg, z3.If(t > tn, tn, t)))
 
     lo = idx(sl.start, 0)
     hi = idx(sl.stop, n)
-    clo, chi = _c(lo), _c(hi)
-    if clo is not None and chi is not None:
-        return clo, max(chi - clo, 0)
-    d = bv(hi) - bv(lo)
-    return _norm(lo), SymInt(z3.If(d < z3.BitVecVal(0, W), z3.BitVecVal(0, W), d))
+    d = cdiff(hi, lo) if not (isinstance(hi, int) and isinstance(lo, int)) else hi - lo
+    if d is not None:
+        return lo, max(d, 0)
+    if ctx().decide(bv(hi) >= bv(lo)):
+        return lo, isub(hi, lo)
+    return lo, 0
 
 
 class SymBuf:
-    """bytearray of concrete length n; contents = z3 array BV80 -> BV8 (only 0..n-1 meaningful)."""
+    """bytearray of concrete length n; contents = Mem (base cells + write log)."""
 
     def __init__(self, init=0):
         self.exports = 0
@@ -93,15 +295,11 @@ class SymBuf:
             if n is None:
                 n = ctx().concretize(init.ln, "bytearray(view) length")
             self.n = n
-            self.arr = z3.K(IDX, z3.BitVecVal(0, 8))
-            for i in range(n):
-                self.arr = z3.Store(self.arr, z3.BitVecVal(i, W), init.byte_term(i))
+            self.arr = Mem(Arr([init.byte_term(i) for i in range(n)]))
             return
         if isinstance(init, (bytes, bytearray)):
             self.n = len(init)
-            self.arr = z3.K(IDX, z3.BitVecVal(0, 8))
-            for i, b in enumerate(init):
-                self.arr = z3.Store(self.arr, z3.BitVecVal(i, W), z3.BitVecVal(b, 8))
+            self.arr = Mem(Arr([k8(b) for b in init]))
             return
         n = _c(init)
         if n is None:
@@ -111,7 +309,7 @@ class SymBuf:
         if n > ctx().limits.get("max_buf", 1 << 17):
             raise Abort("bound", "bytearray(%d) larger than the buffer bound" % n)
         self.n = n
-        self.arr = z3.K(IDX, z3.BitVecVal(0, 8))
+        self.arr = Mem(Arr.zeros(n))
 
     def __len__(self):
         return self.n
@@ -125,28 +323,29 @@ class SymBuf:
         if c is not None:
             if c < -self.n or c >= self.n:
                 raise IndexError("bytearray index out of range")
-            return z3.BitVecVal(c % self.n if c < 0 else c, W)
-        t = bv(i)
-        inb = z3.And(t >= z3.BitVecVal(0, W), t < z3.BitVecVal(self.n, W))
+            return c % self.n if c < 0 else c
+        i = pos(i)
+        t = i.t
+        inb = z3.And(t >= k80(0), t < k80(self.n))
         if ctx().decide(inb):
-            return t
-        neg = z3.And(t < z3.BitVecVal(0, W), t >= z3.BitVecVal(-self.n, W))
+            return i
+        neg = z3.And(t < k80(0), t >= k80(-self.n))
         if ctx().decide(neg):
-            return t + z3.BitVecVal(self.n, W)
+            return iadd(i, self.n)
         raise IndexError("bytearray index out of range")
 
     def __getitem__(self, i):
         if isinstance(i, slice):
             lo, ln = clamp_slice(i, self.n)
-            return SymSeq(self.arr, lo, ln, self.n, live=None)  # a copy (frozen array term)
+            return SymSeq(self.arr, lo, ln, self.n, live=None)  # a copy (frozen snapshot)
         t = self._index(i, "load")
-        return SymInt(zx(z3.Select(self.arr, t)))
+        return SymInt(zx(self.arr.select(t)))
 
     def __setitem__(self, i, v):
         if isinstance(i, slice):
             lo, ln = clamp_slice(i, self.n)
             src_ln = seq_len(v)
-            same = core.EQ(_wrap(src_ln), _wrap(ln))
+            same = core.EQ(src_ln, ln)
             if not (same if isinstance(same, bool) else bool(same)):
                 if self.exports:
                     raise BufferError("Existing exports of data: object cannot be re-sized")
@@ -157,18 +356,32 @@ class SymBuf:
         val = v
         if isinstance(val, (SymInt, SymBool)) or not isinstance(val, int):
             vt = bv(val)
-            ok = z3.And(vt >= z3.BitVecVal(0, W), vt <= z3.BitVecVal(255, W))
+            ok = z3.And(vt >= k80(0), vt <= k80(255))
             if not ctx().decide(ok):
                 raise ValueError("byte must be in range(0, 256)")
             b = lo8(vt)
         else:
             if not 0 <= val <= 255:
                 raise ValueError("byte must be in range(0, 256)")
-            b = z3.BitVecVal(val, 8)
-        self.arr = z3.Store(self.arr, t, b)
+            b = k8(val)
+        self.arr = self.arr.store(t, b)
 
     def byte_term(self, i):
-        return z3.Select(self.arr, bv(i))
+        return self.arr.select(i)
+
+    def __eq__(self, o):
+        return SymSeq(self.arr, 0, self.n, self.n, None) == o
+
+    def __ne__(self, o):
+        return SymSeq(self.arr, 0, self.n, self.n, None) != o
+
+    __hash__ = None
+
+    def eval_obs(self, m):
+        return [m.eval(self.byte_term(k), model_completion=True).as_long() for k in range(self.n)]
+
+    def set_cells(self, cells):
+        self.arr = Mem(Arr(list(cells) + [ZERO8] * (self.n - len(cells))))
 
 
 def _wrap(v):
@@ -194,12 +407,12 @@ class SymSeq:
         return c
 
     def byte_term(self, i):
-        return z3.Select(self.array(), bv(self.lo) + bv(i))
+        return self.array().select(iadd(pos(self.lo), pos(i)))
 
     def __getitem__(self, i):
         if isinstance(i, slice):
             lo, ln = clamp_slice(i, self.ln)
-            nlo = _norm(_add(self.lo, lo))
+            nlo = iadd(pos(self.lo), pos(lo))
             return SymSeq(self.arr, nlo, ln, self.cap, self.live)
         raise Unsupported("view[int]")
 
@@ -212,7 +425,7 @@ class SymSeq:
         same = core.EQ(seq_len(v), ln)
         if not (same if isinstance(same, bool) else bool(same)):
             raise ValueError("memoryview assignment: lvalue and rvalue have different structures")
-        store_seq(self.live, _add(self.lo, lo), v)
+        store_seq(self.live, iadd(pos(self.lo), pos(lo)), v)
 
     def _eq_term(self, o):
         if isinstance(o, (bytes, bytearray)):
@@ -222,6 +435,13 @@ class SymSeq:
             cs = [bv(self.ln) == z3.BitVecVal(len(o), W)]
             for k, b in enumerate(o):
                 cs.append(self.byte_term(k) == z3.BitVecVal(b, 8))
+            return z3.And(*cs)
+        if isinstance(o, SymBuf):
+            o = SymSeq(o.arr, 0, o.n, o.n, None)
+        if isinstance(o, SymSeq):
+            cs = [bv(self.ln) == bv(o.ln)]
+            for k in range(min(self.cap, o.cap)):
+                cs.append(z3.Implies(k80(k) < bv(self.ln), self.byte_term(k) == o.byte_term(k)))
             return z3.And(*cs)
         raise Unsupported("view == %r" % type(o))
 
@@ -242,13 +462,6 @@ class SymSeq:
         return [m.eval(self.byte_term(k), model_completion=True).as_long() for k in range(n)]
 
 
-def _add(a, b):
-    ca, cb = _c(a), _c(b)
-    if ca is not None and cb is not None:
-        return ca + cb
-    return SymInt(bv(a) + bv(b))  # offsets inside a <= 2^17 buffer: cannot overflow 80 bits
-
-
 def seq_len(v):
     if isinstance(v, SymSeq):
         return _norm(v.ln)
@@ -258,22 +471,16 @@ def seq_len(v):
 
 
 def store_seq(buf, lo, v):
-    """buf[lo : lo+len(v)] = v with memmove semantics (source snapshot taken first)."""
+    """buf[lo : lo+len(v)] = v with memmove semantics (the source is an immutable snapshot)."""
     if isinstance(v, (bytes, bytearray)):
-        for k, b in enumerate(v):
-            buf.arr = z3.Store(buf.arr, bv(lo) + z3.BitVecVal(k, W), z3.BitVecVal(b, 8))
+        if len(v):
+            buf.arr = buf.arr.copy_in(lo, len(v), Arr([k8(b) for b in v]).select)
         return
     if isinstance(v, SymBuf):
         v = SymSeq(v.arr, 0, v.n, v.n, None)
-    src = v.array()  # snapshot: z3 arrays are values
-    cl = _c(v.ln)
-    for k in range(v.cap):
-        pos = bv(lo) + z3.BitVecVal(k, W)
-        sb = z3.Select(src, bv(v.lo) + z3.BitVecVal(k, W))
-        if cl is not None:
-            buf.arr = z3.Store(buf.arr, pos, sb)
-        else:
-            buf.arr = z3.Store(buf.arr, pos, z3.If(z3.BitVecVal(k, W) < bv(v.ln), sb, z3.Select(buf.arr, pos)))
+    src = v.array()
+    slo = pos(v.lo)
+    buf.arr = buf.arr.copy_in(lo, v.ln, lambda rel: src.select(iadd(slo, rel)))
 
 
 class SymFloat:
@@ -336,7 +543,7 @@ class SymStruct:
         if len(args) != len(self.codes):
             raise _struct.error("pack_into expected %d items for packing (got %d)" % (len(self.codes), len(args)))
         self._bounds(buf, offset, "pack_into")
-        pos = bv(offset)
+        p = pos(offset)
         for code, a in zip(self.codes, args):
             if code == "?":
                 bits, nb = z3.If(tb(a), z3.BitVecVal(1, 8), z3.BitVecVal(0, 8)), 1
@@ -366,18 +573,18 @@ class SymStruct:
                         raise _struct.error("'%s' format requires %d <= number <= %d" % (code, lo, hi))
                     bits = z3.BitVecVal(a & ((1 << (8 * nb)) - 1), 8 * nb)
             for k in range(nb):
-                buf.arr = z3.Store(buf.arr, pos + z3.BitVecVal(k, W), z3.Extract(8 * k + 7, 8 * k, bits))
-            pos = pos + z3.BitVecVal(nb, W)
+                buf.arr = buf.arr.store(iadd(p, k), z3.Extract(8 * k + 7, 8 * k, bits))
+            p = iadd(p, nb)
 
     def unpack_from(self, buf, offset=0):
         if not isinstance(buf, SymBuf):
             raise Unsupported("unpack_from on a native buffer")
         self._bounds(buf, offset, "unpack_from")
-        pos = bv(offset)
+        p = pos(offset)
         out = []
         for code in self.codes:
             nb = 1 if code == "?" else (4 if code == "f" else 8 if code == "d" else _INT_FMT[code][0])
-            bs = [z3.Select(buf.arr, pos + z3.BitVecVal(k, W)) for k in range(nb)]
+            bs = [buf.arr.select(iadd(p, k)) for k in range(nb)]
             bits = bs[0] if nb == 1 else z3.Concat(*reversed(bs))
             if code == "?":
                 out.append(SymBool(bits != z3.BitVecVal(0, 8)))
@@ -386,7 +593,7 @@ class SymStruct:
             else:
                 signed = _INT_FMT[code][1]
                 out.append(SymInt(z3.SignExt(W - 8 * nb, bits) if signed else z3.ZeroExt(W - 8 * nb, bits)))
-            pos = pos + z3.BitVecVal(nb, W)
+            p = iadd(p, nb)
         return tuple(out)
 
     def pack(self, *a):
